@@ -168,3 +168,46 @@ Definition run_append {fl} (nm : name) (st : res (rstate fl)) (col : list fl) : 
   bind st (fun '(unset, t) => bind (append fl name unset nm col t) (fun t' => Ok (false, t'))).
 Definition replicate_columns {fl} (samples : list name) (nm : name) (cols : list (list fl)) : res (rstate fl) :=
   fold_left (run_append nm) cols (Ok (true, mktab samples [] [])).
+
+(* ---------- the `haptools simphenotype` command: options -> arguments of simulate_pt ---------- *)
+
+(* what the user wrote on the command line (None = the option is absent).  F = the number type *)
+Record cli_opts (F : Type) := mkopts {
+  co_reps : option Z;       (* -r / --replications *)
+  co_env : option F;        (* --environment *)
+  co_h2 : option F;         (* -h / --heritability *)
+  co_prev : option F;       (* -p / --prevalence *)
+  co_norm : option bool;    (* Some true: --normalize; Some false: --no-normalize; None: neither flag *)
+  co_seed : option Z;       (* --seed *)
+  co_chunk : option Z       (* -c / --chunk-size *)
+}.
+Arguments mkopts {F}. Arguments co_reps {F}. Arguments co_env {F}. Arguments co_h2 {F}. Arguments co_prev {F}.
+Arguments co_norm {F}. Arguments co_seed {F}. Arguments co_chunk {F}.
+
+(* the arguments simulate_pt receives (num_replications, environment, heritability, prevalence,
+   normalize, seed, chunk_size) *)
+Record sim_args (F : Type) := mkargs {
+  sa_reps : Z; sa_env : option F; sa_h2 : option F; sa_prev : option F; sa_norm : bool;
+  sa_seed : option Z; sa_chunk : option Z
+}.
+Arguments mkargs {F}. Arguments sa_reps {F}. Arguments sa_env {F}. Arguments sa_h2 {F}. Arguments sa_prev {F}.
+Arguments sa_norm {F}. Arguments sa_seed {F}. Arguments sa_chunk {F}.
+
+(* the documented reading of an absent option: one replication, normalised genotypes *)
+Definition user_reps {F} (o : cli_opts F) : Z := match co_reps o with Some r => r | None => 1 end.
+Definition user_norm {F} (o : cli_opts F) : bool := match co_norm o with Some b => b | None => true end.
+
+(* the click command: declared defaults (replications 1, normalize True, everything else None);
+   an absent --heritability / --environment STAYS None - the 0.5 of the help text is applied by
+   PhenoSimulator.run, and only when an environment variance is given *)
+Definition cli_defaults {F} (o : cli_opts F) : sim_args F :=
+  mkargs (user_reps o) (co_env o) (co_h2 o) (co_prev o) (user_norm o) (co_seed o) (co_chunk o).
+
+(* a command that fills in "the default shown in the option's help" when --no-normalize comes
+   with neither --heritability nor --environment (for the _refuted example) *)
+Definition cli_defaults_h2_filled {F} (half : F) (o : cli_opts F) : sim_args F :=
+  let a := cli_defaults o in
+  match co_h2 o, co_env o, user_norm o with
+  | None, None, false => mkargs (sa_reps a) (sa_env a) (Some half) (sa_prev a) (sa_norm a) (sa_seed a) (sa_chunk a)
+  | _, _, _ => a
+  end.
